@@ -9,7 +9,7 @@
 (*   Retry(n,a)        the try-interval timer fired (handleOutbound)       *)
 (*   RecvHs1(n,m,via)  stage-1 handshake datagram (beginHandshake ->       *)
 (*                     CheckAndComplete -> stage 2 / cached stage 2 / ...) *)
-(*   RecvHs2(n,m,via)  stage-2 handshake datagram (continueHandshake ->    *)
+(*   RecvHs2(n,m,via,late)  stage-2 handshake datagram (continueHandshake ->    *)
 (*                     Complete / wrong host / abandon)                    *)
 (*   RecvData(n,m,via) data datagram (index lookup, AEAD, window, deliver) *)
 (*   Tick              the (virtual) clock advances                        *)
@@ -222,12 +222,18 @@ RecvHs1(n, id, via) ==
                         /\ pend' = IF first \in DOMAIN pend[n] THEN [pend EXCEPT ![n][first].blocked = {}] ELSE pend
 
 (* ---- stage 2 received: continueHandshake ---- *)
-RecvHs2(n, id, via) ==
+\* late: inside packets (outbound-firewall flags) for the same address that the inside reader handles WHILE
+\* continueHandshake is still releasing the queue (the two run on different goroutines). Whatever the interleaving,
+\* each of them is sent exactly once like a queued one. <<>> = the sequential case.
+RecvHs2(n, id, via, late) ==
     LET m == msgs[id]
         c == m.src
     IN
     /\ m.kind = "hs2"
-    /\ UNCHANGED <<clock, sends, early>>
+    /\ sends' = sends + Len(late)
+    /\ UNCHANGED <<clock, early>>
+    /\ (late # <<>> => \E a \in DOMAIN pend[n] : /\ pend[n][a].ready /\ pend[n][a].idx = m.initIdx /\ m.sess = pend[n][a].hs1
+                                                /\ c \in Trusts[n] /\ SetOf(m.cert) \cap Own[n] = {} /\ a \in SetOf(m.cert))
     /\ IF ~(\E a \in DOMAIN pend[n] : pend[n][a].ready /\ pend[n][a].idx = m.initIdx)
          THEN NoEmit /\ tunout' = 0 /\ UNCHANGED <<msgs, pend, tuns, hosts, timers>>      \* no pending handshake: orphan
          ELSE LET a == CHOOSE a \in DOMAIN pend[n] : pend[n][a].ready /\ pend[n][a].idx = m.initIdx
@@ -260,7 +266,8 @@ RecvHs2(n, id, via) ==
                         /\ UNCHANGED <<tuns, hosts>>
               ELSE \* Complete: the pending entry becomes a tunnel, queued packets are released in order
                    LET key == <<p.hs1, id>>
-                       nAllowed == Len(SelectSeq(p.queue, LAMBDA b : b))      \* released only if the outbound firewall allows it
+                       nAllowed == Len(SelectSeq(p.queue, LAMBDA b : b)) + Len(SelectSeq(late, LAMBDA b : b))
+                                                                                \* released only if the outbound firewall allows it
                        t == [lidx |-> p.idx, ridx |-> m.respIdx, addrs |-> m.cert, peer |-> c, init |-> TRUE,
                              hsTime |-> m.time, hs1 |-> p.hs1, hs2 |-> 0, key |-> key, remote |-> via,
                              tx |-> 2 + nAllowed, rx |-> {}, roamFrom |-> NoNode, roamAt |-> 0]
@@ -312,7 +319,7 @@ Tick == /\ clock < MaxClock
         /\ UNCHANGED <<msgs, pend, tuns, hosts, sends, timers, early>>
 
 Deliver == \E n \in Nodes, id \in 1..Len(msgs) : \E via \in Nodes \ {n} :
-              RecvHs1(n, id, via) \/ RecvHs2(n, id, via) \/ RecvData(n, id, via)
+              RecvHs1(n, id, via) \/ RecvHs2(n, id, via, <<>>) \/ RecvData(n, id, via)
 
 Next == /\ Len(msgs) < MaxMsgs
         /\ \/ \E n \in Nodes, a \in Addrs : (\E ok \in BOOLEAN : TunSend(n, a, ok)) \/ Retry(n, a, 1)
